@@ -42,7 +42,11 @@ type thRun struct {
 	Targets     []thTarget
 	Child       bool // run in a fresh process
 	Twice       bool // deliver the group twice (two sources) and read ActiveTargetsByHash
-	Note        string
+	// PrevCfg: the same TargetsDiscovery first ran a round under this OTHER configuration of the job; then it was
+	// reloaded to Cfg and the very same group objects were delivered again (what the discovery manager does for
+	// providers a reload keeps): the hashes must be those of Cfg, as in a fresh process
+	PrevCfg *thCfg `json:",omitempty"`
+	Note    string
 }
 type thCase struct {
 	Runs  []thRun // Runs[0] is the base; the others carry the same content
@@ -74,7 +78,11 @@ func fullLabels(t *scrape.Target) labels.Labels {
 func thExec(r *thRun) ([]thOut, error) {
 	td := discovery.New(quietLog)
 	cfg := &config.Config{ScrapeConfigs: []*config.ScrapeConfig{thScrapeConfig(r.Cfg)}}
-	if err := td.ApplyConfig(&prom.ConfigInfo{Config: cfg}); err != nil {
+	first := cfg
+	if r.PrevCfg != nil {
+		first = &config.Config{ScrapeConfigs: []*config.ScrapeConfig{thScrapeConfig(*r.PrevCfg)}}
+	}
+	if err := td.ApplyConfig(&prom.ConfigInfo{Config: first}); err != nil {
 		return nil, err
 	}
 	mk := func(source string) *targetgroup.Group {
@@ -101,6 +109,13 @@ func thExec(r *thRun) ([]thOut, error) {
 	go func() { _ = td.Run(ctx, sdChan) }()
 	sdChan <- map[string][]*targetgroup.Group{r.Cfg.Job: groups}
 	<-td.ActiveTargetsChan()
+	if r.PrevCfg != nil {
+		if err := td.ApplyConfig(&prom.ConfigInfo{Config: cfg}); err != nil {
+			return nil, err
+		}
+		sdChan <- map[string][]*targetgroup.Group{r.Cfg.Job: groups} // the same objects again
+		<-td.ActiveTargetsChan()
+	}
 	var sds []*discovery.SDTargets
 	if r.Twice {
 		for _, t := range td.ActiveTargetsByHash() {
@@ -314,6 +329,22 @@ func thashGen(r *rand.Rand, idx int, thorough bool) interface{} {
 	v4.Note = "child"
 	v4.Child = true
 	c.Runs = append(c.Runs, v4)
+	// same content, but the discovery object had the job under another configuration before (path / scheme / param)
+	v5 := cloneRun(base)
+	v5.Note = "afterreload"
+	prev := base.Cfg
+	prev.Params = append([][2]string{}, base.Cfg.Params...)
+	switch r.Intn(3) {
+	case 0:
+		prev.Path = base.Cfg.Path + "/old"
+	case 1:
+		prev.Scheme = map[string]string{"http": "https", "https": "http"}[base.Cfg.Scheme]
+	default:
+		prev.Params = append(prev.Params, [2]string{"old", "1"})
+	}
+	v5.PrevCfg = &prev
+	v5.Twice = r.Intn(3) == 0
+	c.Runs = append(c.Runs, v5)
 	// single edits
 	ne := 2
 	if thorough {
